@@ -200,6 +200,7 @@ class Explorer:
         self.step_budget = step_budget
         self.solver = z3.Solver()
         self.solver.set('timeout', solver_timeout_ms)
+        self.solver_timeout_ms = solver_timeout_ms
         self.deadline = deadline
         self.inconclusive = []
         self.frontier_depth = None     # split mode: stop runs at this many decisions and collect their prefixes
@@ -270,6 +271,11 @@ class Explorer:
         if extra:
             self.solver.add(*extra)
         r = self.solver.check()
+        if r == z3.unknown:
+            # one retry with a five times longer limit (a loaded machine must not turn a decidable query into "unknown")
+            self.solver.set('timeout', self.solver_timeout_ms * 5)
+            r = self.solver.check()
+            self.solver.set('timeout', self.solver_timeout_ms)
         m = self.solver.model() if r == z3.sat else None
         self.solver.pop()
         self.stats.solver_s += time.time() - t
